@@ -19,15 +19,22 @@
    intractable (array theory), constant-size arrays are flattened.  Memory safety past `alloc`
    is the business of the proof-mode units, not of these. */
 void *c13_realloc(void *p, size_t n);
+void *c13_malloc(size_t n);
+void c13_free(void *p);
 # define Realloc c13_realloc
+# define Malloc c13_malloc
+# define Free c13_free
 #endif
 #include "c13.h"
 #ifndef NDIG
 # define NDIG 4
 #endif
 #define NCAP (NDIG + 2)
-#define XCAP (NCAP + 2)              /* digits per block: every capacity a unit can reach */
-#define NSPARE 4
+#ifndef XCAP_MIN
+# define XCAP_MIN 0                  /* units whose function allocates a temporary of fixed size raise this (pstm_add_d/sub_d: 8 digits) */
+#endif
+#define XCAP (NCAP + 2 > XCAP_MIN ? NCAP + 2 : XCAP_MIN)   /* digits per block: every capacity a unit can reach */
+#define NSPARE 6
 static pstm_digit gx_blk[4][XCAP];   /* digit blocks of the operands a, b, c, d */
 static struct { pstm_digit blk[NSPARE][XCAP]; unsigned n; } gx_heap;   /* blocks handed out by the realloc model */
 #ifndef NATIVE_REPLAY
@@ -46,6 +53,17 @@ void *c13_realloc(void *p, size_t n)
     for (i = 0; i < XCAP; i++) { q[i] = ((pstm_digit *) p)[i]; }
     return q;
 }
+/* ASSUMED model of malloc: fails, or returns a fresh constant-size block with arbitrary contents; free: no effect */
+void *c13_malloc(size_t n)
+{
+    pstm_digit *q;
+    __CPROVER_assert(n <= XCAP * sizeof(pstm_digit) && gx_heap.n < NSPARE, "malloc model: request within the modelled bounds");
+    if (nondet_bool()) { return NULL; }
+    q = gx_heap.blk[gx_heap.n];
+    gx_heap.n++;
+    return q;
+}
+void c13_free(void *p) { (void) p; }
 #endif
 #define WWORDS (NCAP + 3)
 #define WBITS (64 * WWORDS)
@@ -98,6 +116,7 @@ static wide c13_val(const pstm_int *x)
 static int c13_inv(const pstm_int *x)
 {
     int i;
+    if (x->alloc > NCAP + 1) { return 0; }       /* (also keeps the evaluation inside the block) */
     if (!WF(*x)) { return 0; }
     for (i = 0; i < NCAP + 1; i++)
     {
